@@ -35,6 +35,42 @@ def showRes {α : Type} (f : α → String) : Res α → String
 def showPlot (p : Plot) : String := s!"N={p.N} M={p.M} R={showBoolMat p.R}"
 def showNet (p : Net) : String := s!"N={p.N} A={showBoolMat p.A}"
 
+/-- extended plot request: `t:`/`r:`/`l:` as `spec!`, `s:<x>` threshold_std, `a:<k>` adaptive
+neighbourhood size (with processing order `ord`, `-` = default) -/
+def plotX (m : Metric) (mv : Bool) (series : List (List V)) (e : Option (Nat × Nat))
+    (sp ord : String) : Res Plot :=
+  (stateVectors series e).bind fun emb =>
+    match sp.splitOn ":" with
+    | ["s", x] => .ok (recurrencePlotStd m series emb mv (rat! x))
+    | ["a", k] => adaptivePlot m emb k.toNat! (if ord == "-" then none else some (nats ord))
+    | _ => recurrencePlot m emb mv (spec! sp)
+
+/-- stride used by the constructor (`init`) or by the setter of that kind -/
+def rnStrideOf (setter : Bool) (sp : String) (N : Int) : Int :=
+  if !setter then Generated.ArithC07.rnStride N else
+  match (sp.splitOn ":").headD "" with
+  | "t" => Generated.ArithC07.rnStrideThreshold N
+  | "s" => Generated.ArithC07.rnStrideThresholdStd N
+  | "r" => Generated.ArithC07.rnStrideRate N
+  | "l" => Generated.ArithC07.rnStrideLocal N
+  | _ => Generated.ArithC07.rnStrideAdaptive N
+
+def jrnStrideOf (setter : Bool) (sp : String) (N : Int) : Int :=
+  if !setter then Generated.ArithC07.jrnStrideInit N else
+  match (sp.splitOn ":").headD "" with
+  | "t" => Generated.ArithC07.jrnStrideThreshold N
+  | "s" => Generated.ArithC07.jrnStrideThresholdStd N
+  | _ => Generated.ArithC07.jrnStrideRate N
+
+def jointX (mx my : Metric) (lag : Int) (X Y : List (List V)) (ex ey : Option (Nat × Nat))
+    (sx sy : String) (nRaw : Nat) : Res Plot :=
+  (stateVectors X ex).bind fun eX => (stateVectors Y ey).bind fun eY =>
+    match sx.splitOn ":", sy.splitOn ":" with
+    | ["s", a], ["s", b] => jointPlotStd mx my X Y eX eY nRaw lag (rat! a) (rat! b)
+    | _, _ => jointPlot mx my eX eY nRaw lag (spec! sx) (spec! sy)
+
+def outside : String := "outside-model"
+
 def answer (toks : List String) : String :=
   match toks with
   | ["embed", e, ts] =>
@@ -79,6 +115,54 @@ def answer (toks : List String) : String :=
     showRes showNet ((stateVectors X ex).bind fun eX => (stateVectors Y ey).bind fun eY =>
       interSystem (metric? m) eX eY (spec! s1) (spec! s2) (spec! s3)
         (match spec! s1 with | .rate _ => true | _ => false))
+  | ["rpx", m, mv, norm, e, sp, ord, ts] =>
+    match storedSeries (vMat ts) (norm == "1") with
+    | none => outside
+    | some S => showRes showPlot (plotX (metric? m) (mv == "1") S (emb? e) sp ord)
+  | ["rnx", setter, m, norm, e, sp, ord, ts] =>
+    -- RecurrenceNetwork without missing-value treatment: constructor (`setter = 0`) or the
+    -- setter of that kind on an existing object
+    match storedSeries (vMat ts) (norm == "1") with
+    | none => outside
+    | some S => showRes showNet ((plotX (metric? m) false S (emb? e) sp ord).bind fun p =>
+        .ok (networkOf p (rnStrideOf (setter == "1") sp p.N)))
+  | ["crpx", m, norm, e, sp, x, y] =>
+    match storedSeries (vMat x) (norm == "1"), storedSeries (vMat y) (norm == "1") with
+    | some X, some Y =>
+      showRes showPlot ((stateVectors X (emb? e)).bind fun ex =>
+        (stateVectors Y (emb? e)).bind fun ey => crossPlot (metric? m) ex ey (spec! sp))
+    | _, _ => outside
+  | ["jrpx", net, mx, my, lag, norm, ex, ey, sx, sy, x, y] =>
+    -- `net`: `p` plot, `n` JointRecurrenceNetwork constructor, `s` its setter
+    match storedSeries (vMat x) (norm == "1"), storedSeries (vMat y) (norm == "1") with
+    | some X, some Y =>
+      let r := jointX (metric? mx) (metric? my) lag.toInt! X Y (emb? ex) (emb? ey) sx sy
+        (vMat x).length
+      if net == "p" then showRes showPlot r
+      else showRes showNet (r.bind fun p => .ok (networkOf p (jrnStrideOf (net == "s") sx p.N)))
+    | _, _ => outside
+  | ["isrnx", m, norm, e, taus, s1, s2, s3, x, y] =>
+    match storedSeries (vMat x) (norm == "1"), storedSeries (vMat y) (norm == "1") with
+    | some X, some Y =>
+      let (ex, ey) := match emb? e, nats taus with
+        | some (d, _), [t1, t2] =>
+          if (X.headD []).length == 1 then (some (d, t1), some (d, t2)) else (none, none)
+        | _, _ => (none, none)
+      showRes showNet ((stateVectors X ex).bind fun eX => (stateVectors Y ey).bind fun eY =>
+        interSystem (metric? m) eX eY (spec! s1) (spec! s2) (spec! s3)
+          (match spec! s1 with | .rate _ => true | _ => false))
+    | _, _ => outside
+  | ["normalize", ts] =>
+    match normalizeSeries (vMat ts) with
+    | none => outside
+    | some S => showVMat S
+  | ["argsort", row] => showNats (argsortV (vs row))
+  | ["quantile", rr, flat] =>
+    -- `RecurrencePlot.threshold_from_recurrence_rate(distance, rr)`
+    let l := vs flat
+    match quantileAt l (rateK (rat! rr) l.length) with
+    | none => "raise:IndexError"
+    | some t => showV t
   | ["adaptive", n, k, sn, order] =>
     match adaptive n.toNat! k.toNat! (natMat sn) (nats order) with
     | none => "raise:IndexError"
